@@ -28,6 +28,7 @@
 import re
 import typing
 from fractions import Fraction
+from decimal import Decimal
 import ttconv.style_properties as styles
 
 _LENGTH_RE = re.compile(r"^((?:\+|\-)?\d*(?:\.\d+)?)(px|em|c|%|rh|rw)$")
@@ -41,6 +42,14 @@ _OFFSET_S_RE = re.compile(r"^(\d+(?:\.\d+)?)s$")
 _OFFSET_H_RE = re.compile(r"^(\d+(?:\.\d+)?)h$")
 _OFFSET_M_RE = re.compile(r"^(\d+(?:\.\d+)?)m$")
 
+
+def format_number(value: typing.Union[int, float, Fraction]) -> str:
+  '''Returns `value` with up to six significant digits, like the `g` presentation type, but never in the exponent
+  notation, which TTML does not allow
+  '''
+  s = f"{value:g}"
+
+  return format(Decimal(s), "f") if "e" in s else s
 
 def parse_length(attr_value: str) -> typing.Tuple[float, str]:
   '''Parses the TTML length in `attr_value` into a (length, units) tuple'''
